@@ -275,29 +275,71 @@ def make_machine(rec, pool, refs, tmpdir):
 
 
 def check(rec, case):
-    """replay: re-run the recorded steps in this (fresh) process"""
+    """replay: re-run the recorded steps in this process (the replay worker is a fresh interpreter)"""
+    import contextlib
+    import io
+
     pool, refs, steps = case["pool"], case["refs"], case["steps"]
     tmpdir = tempfile.mkdtemp(prefix="vf-c13-replay-", dir=os.environ.get("VERIF_WORKER_TMP"))
     rec.case({"replayed_steps": len(steps)}, False, key=json.dumps(steps)[:2000])
-    p = pathlib.Path(tmpdir) / "input.xsh"
+    XP = XonshParser()
+    kept = []
+
+    def differs(what, i, got, ref):
+        if got != ref:
+            rec.fail(case, f"{what}-differs-from-fresh-interpreter:{ref[0]}->{got[0]}", {"input": pool[i]["src"][:200]})
+            return True
+        return False
+
     for st_ in steps:
         kind = st_[0]
-        if kind in ("parse", "keep", "verbose"):
+        if kind in ("parse", "keep"):
             it = pool[st_[1]]
-            got = parse_one(it["src"], it["mode"], it["version"])
-            if got != refs[st_[1]]:
-                rec.fail(case, f"parse-differs-from-fresh-interpreter:{refs[st_[1]][0]}->{got[0]}", {"input": it["src"][:200]})
+            if kind == "keep":
+                o = outcome(it["src"], it["mode"], **({"py_version": tuple(it["version"])} if it["version"] else {}))
+                if o.kind == "tree":
+                    kept.append((st_[1], o.tree, dump(o.tree)))
+                continue
+            if differs("parse", st_[1], parse_one(it["src"], it["mode"], it["version"]), refs[st_[1]]):
+                return
+        elif kind == "verbose":
+            it = pool[st_[1]]
+            opts = {"verbose": True}
+            if it["version"]:
+                opts["py_version"] = tuple(it["version"])
+            with contextlib.redirect_stdout(io.StringIO()):
+                got = canon(outcome(it["src"], it["mode"], **opts))
+            if differs("verbose-parse", st_[1], got, refs[st_[1]]):
+                return
+        elif kind == "file":
+            it = pool[st_[1]]
+            p = pathlib.Path(tmpdir) / "input.xsh"
+            p.write_bytes(it["src"].encode("utf-8"))
+            from ..common import Outcome
+
+            try:
+                o = Outcome("tree", tree=XP.parse_file(p))
+            except BaseException as e:  # noqa: BLE001
+                o = classify_exception(e)
+            got, ref = canon(o), refs[st_[1]]
+            if got[0] == "error" and ref[0] == "error":
+                got, ref = got[:-1], ref[:-1]
+            if differs("parse_file", st_[1], got, ref):
                 return
         elif kind == "threads":
             with ThreadPoolExecutor(max_workers=st_[2]) as ex:
                 res = list(ex.map(lambda i: (i, parse_no_watchdog(pool[i]["src"], pool[i]["mode"], pool[i]["version"])), st_[1]))
             for i, got in res:
-                if got != refs[i]:
-                    rec.fail(case, f"threaded-parse-differs-from-fresh-interpreter:{refs[i][0]}->{got[0]}", {"input": pool[i]["src"][:200]})
+                if differs("threaded-parse", i, got, refs[i]):
                     return
+        for i, tree, d in kept:
+            if dump(tree) != d:
+                rec.fail(case, "kept-tree-altered-by-later-parse", {"input": pool[i]["src"][:200]})
+                return
 
 
 SHRINK_FIELDS = ()
+FRESH_PROCESS_REPLAY = True  # a history only means something when it starts in a fresh interpreter
 
 
 def search(rec, ctx):
